@@ -7,6 +7,8 @@ import (
 	"net/url"
 	"regexp"
 	"text/template"
+	"unicode"
+	"unicode/utf16"
 	"unicode/utf8"
 
 	"github.com/robfig/soy/data"
@@ -124,7 +126,22 @@ func directiveEscapeUri(value data.Value, _ []data.Value) data.Value {
 }
 
 func directiveEscapeJsString(value data.Value, _ []data.Value) data.Value {
-	return data.String(template.JSEscapeString(value.String()))
+	// template.JSEscapeString writes a non-printable rune outside the BMP as \u
+	// followed by five hex digits, which JavaScript reads as another character
+	// and a digit; write those as a UTF-16 surrogate pair instead.
+	var str = value.String()
+	var out bytes.Buffer
+	var last = 0
+	for i, r := range str {
+		if r > 0xFFFF && !unicode.IsPrint(r) {
+			out.WriteString(template.JSEscapeString(str[last:i]))
+			var r1, r2 = utf16.EncodeRune(r)
+			fmt.Fprintf(&out, "\\u%04X\\u%04X", r1, r2)
+			last = i + utf8.RuneLen(r)
+		}
+	}
+	out.WriteString(template.JSEscapeString(str[last:]))
+	return data.String(out.String())
 }
 
 func directiveJson(value data.Value, _ []data.Value) data.Value {
